@@ -52,6 +52,9 @@ def run(chk):
         cov["mc_runs"].append({"cfg": cfg, "distinct": r.get("distinct"), "ok": True})
     cov["states"], cov["transitions"] = st, tr
     rnd = random.Random(chk.seed)
+    # the listener: the stop closes every socket, waits for every connection task, and nothing is accepted after it
+    from checks import lscommon
+    cov["listener_traces"] = lscommon.run(chk, rnd, thorough)
     # component level: the driver reports HUNG (no Finished within 5 s of scaled timeouts) which no action explains
     behs = chk.tlc_simulate("Forwarder", "Forwarder_sim.cfg", 500 if thorough else 60, 150, chk.seed)
     fs = [F.script_from_behaviour(b, "sim%d" % i, rnd) for i, b in enumerate(behs)] + [F.random_script("rnd%d" % i, rnd) for i in range(500 if thorough else 40)] + [dict(s, id=s["id"] + "-%d" % rep) for rep in range(3) for s in F.recovery_stories()]
